@@ -689,8 +689,8 @@ theorem extendGroup_ok {d : Int} {a a' : Auth} {g : GroupSpec}
   obtain ⟨rfl, w3⟩ := addUserAdminList_ok e3
   exact ⟨rfl, fun w => w3 (w2 (w1 w))⟩
 
-theorem validateGroup_ok {caller : Key} {d : Int} {room room' : Room} {g : GroupSpec} {need : Bool}
-    (h : validateGroup caller d room g = .ok (room', need)) :
+theorem validateGroup_ok {df : Defects} {caller : Key} {d : Int} {room room' : Room} {g : GroupSpec} {need : Bool}
+    (h : validateGroup df caller d room g = .ok (room', need)) :
     ∃ a0 a' base,
       ((room.getAuth g.gid = some a0 ∧ base = room) ∨
        (room.getAuth g.gid = none ∧ a0 = emptyAuth g.gid d ∧
@@ -745,9 +745,9 @@ theorem setAuth_append_new {l : List Auth} {a0 a' : Auth} (hid : a'.id = a0.id)
   · simp [hid]
 
 /-- one group of a mutation: memory and storage stay in agreement -/
-theorem validateGroup_agrees {caller author : Key} {d : Int} {n : Nat} {room room' : Room} {g : GroupSpec}
+theorem validateGroup_agrees {df : Defects} {caller author : Key} {d : Int} {n : Nat} {room room' : Room} {g : GroupSpec}
     {need : Bool} {groups : List GroupRow} (hf : Forall2 GroupAgrees room.auths groups) (hw : room.WF)
-    (h : validateGroup caller d room g = .ok (room', need)) :
+    (h : validateGroup df caller d room g = .ok (room', need)) :
     Forall2 GroupAgrees room'.auths (storeGroup author d n groups g) ∧ room'.admins = room.admins ∧
       room'.id = room.id ∧ room'.WF := by
   obtain ⟨a0, a', base, hcase, ha', hwa, rfl⟩ := validateGroup_ok h
@@ -826,10 +826,10 @@ theorem validateGroup_agrees {caller author : Key} {d : Int} {n : Nat} {room roo
           rw [ha0id]; exact hnone z hz
       exact Room.setAuth_wf hbase (hwa hwa0)
 
-theorem validateGroups_agrees {caller author : Key} {d : Int} {n : Nat} {room room' : Room}
+theorem validateGroups_agrees {df : Defects} {caller author : Key} {d : Int} {n : Nat} {room room' : Room}
     {gs : List GroupSpec} {need need' : Bool} {groups : List GroupRow}
     (hf : Forall2 GroupAgrees room.auths groups) (hw : room.WF)
-    (h : validateGroups caller d room need gs = .ok (room', need')) :
+    (h : validateGroups df caller d room need gs = .ok (room', need')) :
     Forall2 GroupAgrees room'.auths (storeGroups author d n groups gs) ∧ room'.admins = room.admins ∧
       room'.id = room.id ∧ room'.WF := by
   induction gs generalizing room need n groups with
@@ -848,10 +848,10 @@ theorem validateGroups_agrees {caller author : Key} {d : Int} {n : Nat} {room ro
 
 /-- **local mutation.** If memory agrees with storage before a room mutation, it does after it; the new
     in-memory room is well-formed. (`old = none`, `mem = none` for the creation of a room.) -/
-theorem validate_agrees {caller : Key} {n : Nat} {m : MutSpec} {mem : Option Room} {old : Option RoomRow}
+theorem validate_agrees {df : Defects} {caller : Key} {n : Nat} {m : MutSpec} {mem : Option Room} {old : Option RoomRow}
     {room' : Room}
     (hinv : if m.isNew then old = none else ∃ r rr, mem = some r ∧ old = some rr ∧ AgreesOrd r rr ∧ r.WF ∧ r.id = rr.rid)
-    (h : validate mem caller m = .ok room') :
+    (h : validate df mem caller m = .ok room') :
     AgreesOrd room' (storeMutation caller n old m) ∧ room'.WF ∧ room'.id = (storeMutation caller n old m).rid := by
   unfold validate at h
   simp only at h
@@ -899,8 +899,8 @@ theorem validate_agrees {caller : Key} {n : Nat} {m : MutSpec} {mem : Option Roo
           · rw [ei, e3]; exact hid
 
 /-- the `need_room_admin` flag only grows along the groups of a mutation -/
-theorem validateGroups_need_true {caller : Key} {d : Int} {gs : List GroupSpec} {r r' : Room} {need : Bool}
-    (h : validateGroups caller d r true gs = .ok (r', need)) : need = true := by
+theorem validateGroups_need_true {df : Defects} {caller : Key} {d : Int} {gs : List GroupSpec} {r r' : Room} {need : Bool}
+    (h : validateGroups df caller d r true gs = .ok (r', need)) : need = true := by
   induction gs generalizing r with
   | nil => simp only [validateGroups, Except.ok.injEq, Prod.mk.injEq] at h; exact h.2.symm
   | cons g t ih =>
